@@ -896,6 +896,51 @@ pub fn run(out_prefix: &str, shards: usize, family: &str, seed: u64, scale: usiz
                 });
             }
         }
+        // nested patterns: a pattern whose proper prefix ends with another (shorter) pattern
+        // without being a pattern itself - states that only INHERIT a match (anchored filter,
+        // earliest mode, leftmost cut)
+        "nested" => {
+            let words: Vec<Vec<u8>> = gen::all_strings(b"abc", 4).into_iter().filter(|w| w.len() >= 3).collect();
+            let mut idx = 0usize;
+            for w in &words {
+                // u: a proper suffix/infix of a proper prefix of w (length 1..2), not a prefix of w
+                let mut us: Vec<Vec<u8>> = vec![];
+                for pl in 2..w.len() {
+                    for st in 1..pl {
+                        let u = w[st..pl].to_vec();
+                        if !w.starts_with(&u) && !us.contains(&u) {
+                            us.push(u);
+                        }
+                    }
+                }
+                for u in us.iter().take(if scale > 1 { 4 } else { 2 }) {
+                    idx += 1;
+                    if scale < 2 && idx % 3 != 0 {
+                        continue;
+                    }
+                    let mut uu = u.clone();
+                    uu.extend_from_slice(u);
+                    for pats in [vec![u.clone(), w.clone()], vec![w.clone(), u.clone()], vec![u.clone(), uu.clone(), w.clone()]] {
+                        for &mk in &f.mks {
+                            let repr = ["nc", "dfa", "top-auto", "c"][idx % 4];
+                            let c = Ctx::new(&pats, mk, repr);
+                            let mut hays: Vec<Vec<u8>> = vec![w.clone()];
+                            for b in [b'a', b'c', b'_'] {
+                                let mut h = w.clone(); h.push(b); hays.push(h);
+                                let mut h = vec![b]; h.extend_from_slice(w); hays.push(h);
+                            }
+                            with_ctx(&mut out, &mut stats, &c, &mut |r, s| {
+                                for h in &hays {
+                                    for sp in [(0usize, h.len()), (1, h.len()), (0, h.len() - 1)] {
+                                        all_flavours(r, s, &c, f, h, sp);
+                                    }
+                                }
+                            });
+                        }
+                    }
+                }
+            }
+        }
         // replace_all in all its forms (C12)
         "replace" => {
             let mut rg = gen::rng(seed, 0xCA11_0004);
